@@ -14,6 +14,9 @@ import (
 
 // Encoder turns one function under contract into a linear list of SMT commands plus obligations.
 type Encoder struct {
+	guardsOn bool     // lock-discipline obligations are generated (property C11 is being checked)
+	unshared []string // object references the contract declares thread-private
+	topEntry *State   // entry state of the function under contract (inlined frames have their own f.entry)
 	prog     *Program
 	ct       *Contracts
 	sorts    *SortTable
@@ -195,6 +198,29 @@ func (e *Encoder) comp(st *State, name, sort string) string {
 	}
 	if t, ok := st.heap[name]; ok {
 		return t
+	}
+	ep := ""
+	if !(strings.HasPrefix(name, "LW.") || strings.HasPrefix(name, "LR.") || name == "alloc" || strings.HasPrefix(name, "ITER.")) {
+		for i := len(st.havocs) - 1; i >= 0; i-- {
+			if h := st.havocs[i]; h.ws == nil || h.ws.matches(name) {
+				ep = h.ep
+				break
+			}
+		}
+	}
+	if ep != "" {
+		// first mention of this component after it was havocked (by a call without frame, a loop that may write
+		// anything): an unconstrained version of that epoch, not the entry version
+		v := smtQuote(name + "@" + strings.Trim(ep, "|"))
+		if !e.compDecl[v] {
+			e.compDecl[v] = true
+			saved := e.curBlk
+			e.curBlk = nil
+			e.emit(fmt.Sprintf("(declare-const %s %s)", v, e.compSort[name]))
+			e.curBlk = saved
+		}
+		st.heap[name] = v
+		return v
 	}
 	init := smtQuote(name + "@0")
 	if !e.compDecl[name] {
